@@ -2,7 +2,7 @@
    ShardedLRURevisionCache by harness/db/verif_c16_test.go are re-run here on the model; after every op the
    returned revision (interned content) or error kind, the eviction flag, the two gauges and the LRU key
    order of every shard must agree. *)
-From SG Require Export Base.Prelude Base.Bytes C16.RevCache.
+From SG Require Export Base.Prelude Base.Bytes C16.RevCache C16.RevCacheSharded.
 Open Scope N_scope.
 
 Record obs := Ob {
@@ -33,29 +33,6 @@ Definition res_eqb (a b : res) : bool :=
   | RUnit, RUnit => true
   | _, _ => false
   end.
-
-Fixpoint set_nth {A} (n : nat) (x : A) (l : list A) : list A :=
-  match l, n with
-  | [], _ => []
-  | _ :: r, O => x :: r
-  | y :: r, S m => y :: set_nth m x r
-  end.
-
-Definition is_world_op (o : op) : bool :=
-  match o with SetLoad _ _ | SetActive _ _ => true | _ => false end.
-
-(* one routed op on the list of shard states *)
-Definition step_sh (cfgs : list config) (sts : list state) (w : N * op) : list state * out :=
-  let '(i, o) := w in
-  if is_world_op o then
-    (map (fun cs => fst (step (fst cs) (snd cs) o)) (combine cfgs sts), mkO RUnit false)
-  else
-    match nth_error cfgs (N.to_nat i), nth_error sts (N.to_nat i) with
-    | Some cfg, Some s => let '(s', x) := step cfg s o in (set_nth (N.to_nat i) s' sts, x)
-    | _, _ => (sts, mkO REmpty false)
-    end.
-
-Definition sumZ (l : list Z) : Z := fold_right Z.add 0%Z l.
 
 Definition obs_ok (sts : list state) (x : out) (b : obs) : bool :=
   res_eqb (ores x) (b_res b) && Bool.eqb (oflag x) (b_flag b) &&
